@@ -1,0 +1,22 @@
+//go:build verif
+// +build verif
+
+package xuperos
+
+import (
+	"github.com/patrickmn/go-cache"
+
+	"github.com/xuperchain/xupercore/kernel/engines/xuperos/common"
+	"github.com/xuperchain/xupercore/kernel/engines/xuperos/miner"
+)
+
+// VerifNewChain builds a Chain around a prepared context (ledger, state, contract and acl managers
+// already assembled) so that the verification harness can call the real PreExec / SubmitTx.
+func VerifNewChain(ctx *common.ChainCtx) *Chain {
+	chainObj := &Chain{}
+	chainObj.ctx = ctx
+	chainObj.log = ctx.XLog
+	chainObj.miner = miner.NewMiner(ctx)
+	chainObj.txIdCache = cache.New(TxIdCacheExpired, TxIdCacheGCInterval)
+	return chainObj
+}
